@@ -231,3 +231,33 @@ func VerifC16Main() {
 }
 
 func verifRunFailed() bool
+
+func verifStdoutFailed() bool
+func verifStdout() string
+
+func init() {
+	verifRegister("VerifC16Template", VerifC16Template)
+}
+
+// VerifC16Template: the template action (both forms) prints through fmt to the standard output; every write is
+// accepted or refused (solver's choice per write). A refused write is an I/O failure of the operation: the action
+// returns an error (main turns that into a non-zero status and the message on stderr); when nothing is refused the
+// action returns nil and the complete template has gone out, with its final newline.
+func VerifC16Template() {
+	verifStdFiles()
+	c := &cli.Context{}
+	desc := c.Bool("description")
+	verifContext("C16.template")
+	err := actionTemplate(c)
+	if verifStdoutFailed() {
+		verifAssert(err != nil, "C16.code.template.writefail")
+	} else {
+		verifAssert(err == nil, "C16.code.template.ok")
+		want := string(directory) + "\n"
+		if desc {
+			want = string(description) + "\n"
+		}
+		verifAssert(verifStdout() == want, "C16.wire.template")
+	}
+	verifReach("C16.template.end")
+}
